@@ -183,6 +183,14 @@ def r_size_of(t):
     return out, n
 
 
+CFG_DROPPABLE = {"( test )", "( debug_assertions )", "( all ( debug_assertions , not ( fuzzing ) ) )", "( all ( debug_assertions , not ( redb_no_std ) ) )",
+                 '( feature = "logging" )', '( feature = "cache_metrics" )', "( fuzzing )"}
+
+
+class UnsupportedCfg(Exception):
+    pass
+
+
 def r_drop_cfg_stmts(t):
     """R9: inside a function body, drop `#[cfg(..)] <stmt or block>` (test-only and debug-consistency
     statements).  Also drops `#[allow(..)]`-style attributes on statements (attribute only)."""
@@ -192,6 +200,12 @@ def r_drop_cfg_stmts(t):
             close = _match_close(t, i + 1)
             name = t[i + 2]
             if name == "cfg":
+                # Only code that is absent from a release build of the library, or that only logs / counts, may be dropped.  Any other
+                # predicate (`not(debug_assertions)`, `not(test)`, a target, another feature ..) guards code that RUNS: dropping it
+                # would verify a text that is not the code - the unit is refused instead (UNDECIDED).
+                pred = " ".join(t[i + 3:close])
+                if pred not in CFG_DROPPABLE:
+                    raise UnsupportedCfg("a statement is guarded by #[cfg%s], which the extraction may not drop" % pred.replace(" ", ""))
                 # drop the attribute and the statement/block that follows
                 j = close + 1
                 if t[j] == "{":
